@@ -59,7 +59,8 @@ def check_bounds(prog, res, tier):
     contracts = der_contracts(prog)
     if len(contracts) < 15:
         raise AnalysisBroken("only %d DER decoders found" % len(contracts))
-    names = [f.name for f in prog.all_funcs() if f.relfile in UNITS and f.body is not None and db.find_pairs(f)]
+    names = [f.name for f in prog.all_funcs() if f.relfile in UNITS and f.body is not None and db.find_pairs(f) and
+             (f.unit, f.name) not in getattr(prog, "new_helpers", ())]       # new helpers are judged expanded in their callers
     _analyse_one.prog = prog
     _analyse_one.contracts = contracts
     # phase 1: what the static container decoders guarantee about the fields they fill (used at their call sites)
@@ -155,6 +156,8 @@ def check_strings(prog, res, contracts):
     for f in prog.all_funcs():
         if f.relfile not in STR_UNITS or f.body is None or not db.find_str_pairs(f):
             continue
+        if (f.unit, f.name) in getattr(prog, "new_helpers", ()):
+            continue      # a helper introduced after the reference tree: it is judged where it is expanded, in its callers
         strs = {p.ptr_id for p in db.find_str_pairs(f)}
         pre = [c.get("callee") for c in ir.calls(f.body) if VALIDATORS.match(c.get("callee") or "") and c.get("callee") != f.name and
                any(strip(a).get("k") == "Ref" and strip(a).get("id") in strs for a in c["a"])]
